@@ -922,8 +922,59 @@ def enum_fitted_all_kinds(tier):
             yield dict(base, family="panel_estimator", spec={"kind": k, "n_columns": nc})
 
 
+def oracle_tuner_flag(case, ctx):
+    """Tuners with and without the final refit: fit returns self, sets the fitted flag, keeps the
+    constructor parameters; a clone is unfitted (without refit, predict is refused by design)."""
+    from sktime.forecasting.model_selection import ForecastingGridSearchCV, ForecastingRandomizedSearchCV, SlidingWindowSplitter
+    from sktime.forecasting.naive import NaiveForecaster
+
+    cls = ForecastingGridSearchCV if case["search"] == "grid" else ForecastingRandomizedSearchCV
+    base = NaiveForecaster() if case["base"] == "naive" else pools.build_forecaster(
+        {"kind": "pipeline", "transformers": [{"kind": "detrend", "degree": 1}], "forecaster": {"kind": "naive", "strategy": "last", "sp": 1}})
+    grid = {"strategy": ["last", "mean"]} if case["base"] == "naive" else {"forecaster__strategy": ["last", "mean"]}
+    kw = {"param_grid": grid} if case["search"] == "grid" else {"param_distributions": grid, "n_iter": 2, "random_state": case["rs"]}
+    t = cls(base, cv=SlidingWindowSplitter(fh=1, window_length=6, step_length=2), refit=case["refit"], **kw)
+    y = gen.build_series([5.0 + 0.75 * i + ((i * 7) % 5) / 3.0 for i in range(16)], case["start"], "range")
+    ctx.label("refit=%s" % case["refit"])
+    ctx.mark_nontrivial(not case["refit"])
+    discs = []
+    if sut(lambda: t.is_fitted) is not False:
+        discs.append(D("new_estimator_is_fitted:%s" % cls.__name__, ""))
+    before = _snapshot(t)
+    r = sut(t.fit, y.copy(), None, [1, 2])
+    if isinstance(r, Raised):
+        return discs + [D("valid_fit_rejected:%s:%s@%s" % (cls.__name__, r.type, r.where), r.msg)]
+    if r is not t:
+        discs.append(D("fit_not_self:%s" % cls.__name__, ""))
+    if sut(lambda: t.is_fitted) is not True:
+        discs.append(D("is_fitted_false_after_fit:%s" % cls.__name__, "refit=%s" % case["refit"]))
+    c = sut(t.check_is_fitted)
+    if isinstance(c, Raised):
+        discs.append(D("check_is_fitted_raises_after_fit:%s" % cls.__name__, "refit=%s: %r" % (case["refit"], c)))
+    ch = _unchanged(before, _snapshot(t))
+    if ch:
+        discs.append(D("fit_changes_parameter:%s" % cls.__name__, str(ch[:3])))
+    cl = sut(clone, t)
+    if isinstance(cl, Raised) or sut(lambda: cl.is_fitted) is not False:
+        discs.append(D("clone_is_fitted:%s" % cls.__name__, repr(cl)[:100]))
+    p = sut(t.predict, [1, 2])
+    if case["refit"] and isinstance(p, Raised):
+        discs.append(D("fitted_estimator_reports_not_fitted:%s.predict" % cls.__name__, repr(p)))
+    if not case["refit"] and not (isinstance(p, Raised) and p.is_a(NotFittedError)):
+        discs.append(D("not_fitted_guard:%s.predict" % cls.__name__, "refit=False: predict -> %r" % (p,)))
+    return discs
+
+
+def enum_tuner_flag(tier):
+    import itertools
+
+    for search, base, refit, start in itertools.product(["grid", "random"], ["naive", "pipeline"], [True, False], [0, 5]):
+        yield {"search": search, "base": base, "refit": refit, "start": start, "rs": 3}
+
+
 def subchecks():
     return [
+        SubCheck("tuner_fitted_flag", oracle_tuner_flag, enumerate_cases=enum_tuner_flag, shards_quick=4, shards_thorough=4, exhaustive=True),
         SubCheck("fitted_state_every_kind", oracle_fitted_state, enumerate_cases=enum_fitted_all_kinds,
                  shards_quick=16, shards_thorough=16, exhaustive=True),
         SubCheck("constructor_defaults_all_classes", oracle_constructor, enumerate_cases=enum_constructor_defaults,
